@@ -68,6 +68,26 @@ def run(ctx):
                f"current_target_efficiency returns {T.show(ret)[:300]}")
     target_prev = T.substitute(ret, {bb: T.atom("beta")})
 
+    # ---- the options in force are this call's options
+    from .smcloop import fold_sample
+    sfo = fold_sample(repo, resumed=False, final=False)
+    smp = smc.methods["sample"]
+    for opt in ("target_efficiency", "target_efficiency_rate"):
+        v = sfo.ev.heap.get((SELF, opt))
+        ctx.decide(v == T.atom(opt), "C07.opts", smp.ident, loc_of(smp), f"sample() installs its {opt} argument before the loop",
+                   f"sample({opt}=...) is not installed on the sampler before the loop (found {T.show(v)[:60] if v else 'no store'}): the search runs with a stale or missing target", disc=opt)
+    setter = smc.methods.get("target_efficiency.setter")
+    if setter is not None:
+        evs_, _ = fold(repo, setter, smc)
+        te_ = evs_.heap.get((SELF, "_target_efficiency"))
+        fl_ = evs_.heap.get((SELF, "_adapative_target_efficiency"))
+        val = T.atom(setter.params[1])
+        isf = ("f", "isinstance", (val, ("ref", "builtins.float")), ())
+        ok = te_ is not None and fl_ is not None and T.select(T.strip_raise(te_), isf, True) == val and T.select(T.strip_raise(fl_), isf, True) == T.FALSE \
+            and T.TRUE in list(T.phi_leaves(T.select(T.strip_raise(fl_), isf, False)))
+        ctx.decide(ok, "C07.opts", setter.ident, loc_of(setter), "a scalar target is stored as is (no ramp); a pair switches the ramp on",
+                   f"target_efficiency setter stores {T.show(te_)[:120] if te_ else None} / ramp flag {T.show(fl_)[:120] if fl_ else None}", disc="setter")
+
     # ---- the bisection
     ev, ret, db, _ = fold_db(repo, adaptive=True)
     ctx.count("functions_folded")
@@ -207,6 +227,10 @@ MUTANTS = [
     M("incremental weights use absolute temperature", _S, "return (self.beta - beta) * self.log_q + (beta - self.beta) * (", "return (- beta) * self.log_q + (beta) * (", ("C07.w", "C07.eff")),
     M("ramp ignores beta", _B, ") * (beta**self.target_efficiency_rate)", ") * self.target_efficiency_rate", "C07.target"),
     M("ramp branches swapped", _B, "if self._adapative_target_efficiency:\n            return self._target_efficiency[0]", "if not self._adapative_target_efficiency:\n            return self._target_efficiency[0]", "C07.target"),
+]
+MUTANTS += [
+    M("target option never installed", _B, "self.target_efficiency = target_efficiency\n        self.target_efficiency_rate = target_efficiency_rate", "self.target_efficiency_rate = target_efficiency_rate", "C07.opts"),
+    M("scalar target switches the ramp on", _B, "self._target_efficiency = value\n            self._adapative_target_efficiency = False", "self._target_efficiency = value\n            self._adapative_target_efficiency = True", "C07.opts"),
 ]
 NEUTRALS = [
     M("comparison mirrored with swapped branches", _B, "if eff >= target_eff:\n                    beta_min = beta_try\n                else:\n                    beta_max = beta_try",
